@@ -501,8 +501,8 @@ func TestVerif_C17_Exhaustive(t *testing.T) {
 		c17Exhaust(vk, "u9/len<=4/npp2", u9, 4, cfgA)
 		c17Exhaust(vk, "u9/len<=4/npp3", u9, 4, cfgB)
 		c17Exhaust(vk, "u4/len<=6/npp2", u4, 6, cfgA)
-		c17Exhaust(vk, "u4/len<=6/npp3", u4, 6, cfgB)
-		vk.Exhaustive("all add/delete/commit/evict/reload sequences of length <=4 over the nine 2-byte keys on {0,1,2} and of length <=6 over the keys {0000,0001,0002,0100}, each under page size 2/cache 1 and page size 3/cache 2 (complete when all shards of the unit ran)")
+		c17Exhaust(vk, "u4/len<=5/npp3", u4, 5, cfgB)
+		vk.Exhaustive("all add/delete/commit/evict/reload sequences of length <=4 over the nine 2-byte keys on {0,1,2} (page size 2/cache 1 and page size 3/cache 2) and over the keys {0000,0001,0002,0100} of length <=6 (page size 2/cache 1) and <=5 (page size 3/cache 2) (complete when all shards of the unit ran)")
 	} else {
 		c17Exhaust(vk, "u9/len<=3/npp2", u9, 3, cfgA)
 		c17Exhaust(vk, "u4/len<=4/npp2", u4, 4, cfgA)
